@@ -9,7 +9,7 @@ META = {
                   'tables._fix_ncep_descriptors', 'tables.BufrTableGroup.template_from_ids', 'decoder.Decoder.process / process_template_data and the Coder element kernels'],
     'bounds': ['extraction: scale / reference / width strings as z3 sequences of length <= 2 / 3 / 2 over digits and blanks, both signs, 0..3 sequence members',
                'application: one new element 0-48-001 whose width (1..32) and reference value (-2^31..2^31) are solver integers, scale in {0, 1, -1, 2}, unit in '
-               '{K, CODE TABLE, FLAG TABLE, NUMERIC}; three new sequences (plain, NCEP replication-only, nested with fixed replication); 7 data templates mixing new and '
+               '{K, CODE TABLE, FLAG TABLE, NUMERIC}; three new sequences (plain, NCEP replication-only, nested with fixed replication); 9 data templates mixing new and '
                'standard descriptors and 201/202 operators; all data bits solver variables; factors 0..2',
                'protocol: definition message with 1..2 element and 0..2 sequence definitions; sign / scale / reference / width characters of the first element solver bytes over '
                '{+,-} x {0,1} x {+,-} x {0,7}5 x {3,8,13,18} (wider alphabets in thorough); data message payload 96 solver bits; a definition message with zero subsets; optionally a second definition message that redefines 0-48-001 and the first sequence'],
@@ -34,8 +34,8 @@ def jobs(tier, seed):
     thorough = tier == 'thorough'
     J.append(Job('extract', 'harness.c20', 'h_extract', {'scale_len': 2 if thorough else 1, 'ref_len': 3 if thorough else 2, 'width_len': 2}, timeout=3000 if thorough else 900,
                  witnesses=['extracted', 'not-a-number']))
-    for t in range(7):
-        J.append(Job('apply:template%d' % t, 'harness.c20', 'h_apply', {'template': t, 'max_width': 32 if thorough else 12, 'no_missing': t in (2, 5)}, timeout=3000 if thorough else 900,
+    for t in range(9):
+        J.append(Job('apply:template%d' % t, 'harness.c20', 'h_apply', {'template': t, 'max_width': 32 if thorough else 12, 'no_missing': t in (2, 5, 7, 8), 'max_factor': 1 if t in (7, 8) else 2}, timeout=3000 if thorough else 900,
                      witnesses=['applied']))
     # one exploration split into parallel jobs by the number of element / sequence definitions in the definition message
     for n_b in (0, 1):
